@@ -115,6 +115,9 @@ def oracle_check(ctx, op, a, b, got, case):
                     ctx.violation('product differs from the linear-algebra product', case, impl=r, expected=want)
         elif op == 'div' and big(b):
             ctx.violation('division by an array returned a value', case, impl=r)
+        elif op == 'div' and is_arr(b) and b.ndim >= 1 and not is_arr(a):
+            # single-entry arrays are "numberlike" for array/array, but number/array is refused for every vector, matrix and tensor
+            ctx.violation('a number divided by a (single-entry) vector/matrix/tensor returned a value', case, impl=r)
         elif op == 'pow' and big(a):
             if a.ndim != 2 or a.shape[0] != a.shape[1]:
                 ctx.violation('a vector / tensor / non-square matrix was raised to a power', case, impl=r)
